@@ -58,6 +58,12 @@ def part_a(rec, li, n, seed, only=None):
                     ncall += 1
                     base = base0 * float(1 + ncall % 3)
                     da = xr.DataArray(base.copy(), dims=["b", S.dimname("X", fr)], name="q")
+                    if supply == "callmap":
+                        wide = np.repeat(base, 2, axis=1)
+                        wide[:, 1::2] = -777.0
+                        view = wide[:, ::2]
+                        view.setflags(write=False)
+                        da = xr.DataArray(view, dims=["b", S.dimname("X", fr)], name="q")
                     if g is None:
                         g = build_grid({"X": layout}, {"X": n}, gkw)
                         if supply in ("grid", "gridmap", "default"):
